@@ -55,6 +55,32 @@ inductive Frag : Node → Prop
       (h : n.name = "plus" ∨ n.name = "minus" ∨ n.name = "times" ∨ n.name = "div" ∨ n.name = "divint" ∨
            n.name = "modint" ∨ n.name = "and" ∨ n.name = "or")
       (hc : n.children = [some a, some b]) (fa : Frag a) (fb : Frag b) : Frag n
+  | signal (n : Node) (h : n.name = "break" ∨ n.name = "continue") : Frag n
+  | ret0 (n : Node) (h : n.name = "return") (hc : n.children = []) : Frag n
+  | ret1 (n c : Node) (h : n.name = "return") (hc : n.children = [some c]) (fc : Frag c) : Frag n
+  | statements (n : Node) (kids : List Node) (h : n.name = "statements") (hc : n.children = kids.map some)
+      (hk : ∀ c, c ∈ kids → Frag c) : Frag n
+
+theorem NPQ.forIn {α β : Type} (l : List α) (body : α → β → M (ForInStep β))
+    (h : ∀ a, a ∈ l → ∀ b, NP (body a b)) : ∀ init, NP (forIn l init body) := by
+  induction l with
+  | nil => intro init; simp only [List.forIn_nil]; exact NPQ.pure _ (fun _ => True) trivial
+  | cons x xs ih =>
+    intro init
+    simp only [List.forIn_cons]
+    refine NPQ.bind _ _ (fun _ => True) _ (h x (by simp) init) (fun r _ => ?_)
+    cases r with
+    | done b => exact NPQ.pure _ (fun _ => True) trivial
+    | yield b => exact ih (fun a ha => h a (by simp [ha])) b
+
+theorem NPQ.foldlM {α β : Type} (l : List α) (g : β → α → M β)
+    (h : ∀ a, a ∈ l → ∀ b, NP (g b a)) : ∀ init, NP (l.foldlM g init) := by
+  induction l with
+  | nil => intro init; simp only [List.foldlM_nil]; exact NPQ.pure _ (fun _ => True) trivial
+  | cons x xs ih =>
+    intro init
+    simp only [List.foldlM_cons]
+    exact NPQ.bind _ _ (fun _ => True) _ (h x (by simp) init) (fun r _ => ih (fun a ha => h a (by simp [ha])) r)
 
 macro "np_bind" : tactic => `(tactic| refine NPQ.bind _ _ (fun _ => True) _ ?_ (fun _ _ => ?_))
 
@@ -164,6 +190,23 @@ theorem eval_frag_np : ∀ (f sc : Nat) (n : Node), Frag n → NP (eval f sc n) 
           np_bind
           · exact ih0 sc c fc
           · exact NPQ.pure _ (fun _ => True) trivial
+      | signal n h =>
+        rcases h with h | h <;> (unfold eval; simp [h]; exact NPQ.throw _ _ (rtErr_ne_panic _ _))
+      | ret0 n h hc =>
+        unfold eval; simp [h, hc]
+        split
+        · exact NPQ.throw _ _ (by simp)
+        · next hne => exact NPQ.throw _ _ (by intro hp; have := rtErr_ne_panic tReturn n; simp_all)
+      | ret1 n c h hc fc =>
+        unfold eval; simp [h, hc, child]
+        np_bind
+        · exact ih0 sc c fc
+        · split
+          · exact NPQ.throw _ _ (by simp)
+          · next hne => exact NPQ.throw _ _ (by intro hp; have := rtErr_ne_panic tReturn n; simp_all)
+      | statements n kids h hc hk =>
+        unfold eval; simp [h, hc]
+        exact NPQ.foldlM kids _ (fun a ha _ => ih0 sc a (hk a ha)) _
       | binary n a b h hc fa fb =>
         rcases h with h | h | h | h | h | h | h | h
         · unfold eval; simp [h, hc]; exact numOp_any f ihf sc n a b hc fa fb _
